@@ -165,6 +165,11 @@ func cmdLife(args []string) {
 				if id, err := time.ActorIDFromHex(ids[c.C]); err == nil {
 					doc.SetActor(id)
 				}
+				// like the SDK, the attach request carries a change (so the instance's checkpoint moves off 0)
+				_ = doc.Update(func(r *yjson.Object, _ *presence.Presence) error {
+					r.SetInteger("a-"+c.C, 1)
+					return nil
+				})
 				pb, _ := converter.ToChangePack(doc.CreateChangePack())
 				res, err := cli.AttachDocument(ctx, connect.NewRequest(&api.AttachDocumentRequest{ClientId: ids[c.C], ChangePack: pb}))
 				cerr = err
@@ -175,6 +180,18 @@ func cmdLife(args []string) {
 						knownDoc[c.D] = res.Msg.DocumentId
 					}
 					doc.SetStatus(document.StatusAttached)
+				}
+			case "reattach":
+				rep := reps[rk]
+				if ids[c.C] == "" || rep == nil {
+					ev["skipped"] = true
+					break
+				}
+				pb, _ := converter.ToChangePack(rep.doc.CreateChangePack())
+				res, err := cli.AttachDocument(ctx, connect.NewRequest(&api.AttachDocumentRequest{ClientId: ids[c.C], ChangePack: pb}))
+				cerr = err
+				if err == nil {
+					resPack = res.Msg.ChangePack
 				}
 			case "sync", "detach", "remove":
 				if ids[c.C] == "" {
